@@ -215,6 +215,18 @@ def extra_rules(F, res):
                 if c.endswith("::eq") and "PartialEq" in c:
                     if tt["dest"]["l"] == 0 or dc.origin(0).get("bb") == bb:
                         eq_cmp = True
+            # the same test as the guard of a pattern: matches!(other.get(k), Some(o) if o == ty) - the comparison's answer is switched
+            # on, one side answers true, the other false
+            if not eq_cmp:
+                consts = {str((s_["rv"]["op"].get("k") or {}).get("bits")) for _b, _i, s_ in cf.stmts()
+                          if s_["k"] == "assign" and s_["place"]["l"] == 0 and not s_["place"]["p"] and s_["rv"]["k"] == "use" and isinstance(s_["rv"]["op"].get("k"), dict)}
+                for bb, tt in cf.calls():
+                    c = callee(tt) or callee_def(tt) or ""
+                    if c.endswith("::eq") and "PartialEq" in c:
+                        nb = tt.get("target")
+                        t3 = cf.term(nb) if nb is not None else {}
+                        if t3.get("k") == "switch" and op_local(t3["op"]) == tt["dest"]["l"] and {"0", "1"} <= consts:
+                            eq_cmp = True
             # the same test written with a combinator: get(k).map_or(false, |o| o == ty) / .is_some_and(|o| o == ty) / get(k) == Some(ty)
             for bb, tt in cf.calls():
                 c = FL.short(callee(tt) or callee_def(tt) or "")
